@@ -106,7 +106,7 @@ pub fn sites(w: &Witness, f: &Fault) -> Vec<(usize, usize, Option<usize>)> {
                         }
                     }
                 }
-                Site::Padding => {
+                Site::Padding | Site::PaddingOnly => {
                     if p.packet.rdh.data_format == 2 {
                         out.push((li, pi, None));
                     }
@@ -159,6 +159,12 @@ pub fn mutate(w: &Witness, f: &Fault, site: (usize, usize, Option<usize>)) -> Mu
             let sz = (64 + p.packet.payload.len()) as u16;
             p.packet.rdh.memory_size = sz;
             p.packet.rdh.offset_next = sz;
+        }
+        Site::PaddingOnly => {
+            let p = &mut links[li][pi];
+            p.packet.payload = vec![0xFF; 16];
+            p.packet.rdh.memory_size = 80;
+            p.packet.rdh.offset_next = 80;
         }
         Site::SameOrbitHbf => {
             let hbf = links[li][pi].hbf;
@@ -427,7 +433,7 @@ pub fn run(tier: Tier) -> i32 {
         }
         let mut j2: Vec<J2> = Vec::new();
         for w in ws.iter().filter(|w| w.links.len() == 1) {
-            for f in cat.iter().filter(|f| !matches!(f.site, faults::Site::Padding | faults::Site::SameOrbitHbf)) {
+            for f in cat.iter().filter(|f| !matches!(f.site, faults::Site::Padding | faults::Site::PaddingOnly | faults::Site::SameOrbitHbf)) {
                 let all = sites(w, f);
                 if all.len() < 2 {
                     continue;
